@@ -66,7 +66,8 @@ FilterCreate(a, hid) == Can /\ Room("filter") /\ Step("action_body_filter_create
                              IF a.k = "filters" THEN {NewK("filter", IF hid = 0 \/ \E h \in Of("hmap") : h.id = hid /\ h.k = "html" THEN "html" ELSE "text")} ELSE {}, {})
 BufferCreate(p) == Can /\ Room("buffer") /\ Step("caller_buffer_create", <<p>>, {NewK("buffer", p)}, {})
 \* f = 0 stands for the NULL filter: the buffer is duplicated and stays with the caller
-FilterFilter(fid, b) == Can /\ (fid # 0 \/ Room("buffer")) /\ Step("action_body_filter_filter", <<fid, b.id>>, {New("buffer")}, IF fid = 0 THEN {} ELSE {b})
+\* (the answer remembers which payload it was made from: answers to different payloads are different states)
+FilterFilter(fid, b) == Can /\ (fid # 0 \/ Room("buffer")) /\ Step("action_body_filter_filter", <<fid, b.id>>, {NewK("buffer", "of_" \o b.k)}, IF fid = 0 THEN {} ELSE {b})
 FilterClose(f) == Can /\ Room("buffer") /\ Step("action_body_filter_close", <<f.id>>, {New("buffer")}, {f})
 FilterDrop(f) == Can /\ Step("action_body_filter_drop", <<f.id>>, {}, {f})
 BufferDrop(b) == Can /\ Step("api_buffer_drop", <<b.id>>, {}, {b})
